@@ -340,13 +340,14 @@ func (update *Update) Prepend(eventlist *EventList) error {
 	}
 	ours := update.Events[0].Index
 	last := eventlist.Events[count-1].Index
-	if last < ours-1 {
+	if ours > 0 && last < ours-1 {
 		return errors.New("missing events")
 	}
-	min := int(1 + last - ours)
-	if min > len(update.Events) {
+	// The indices come from the message: compare before converting (1 + last - ours may not fit).
+	if last >= ours && last-ours >= uint64(len(update.Events)) {
 		return errors.New("events too new")
 	}
+	min := int(1 + last - ours)
 
 	n := &Update{
 		SignedAccumulator: update.SignedAccumulator,
@@ -506,6 +507,10 @@ func (el *EventList) Verify(acc *Accumulator) error {
 		if event == nil || event.E == nil {
 			return errors.Errorf("event chain element %d is incomplete", i)
 		}
+		if event.E.Sign() < 0 {
+			// events are hashed over the magnitude of their value
+			return errors.Errorf("event chain element %d has a negative value", i)
+		}
 	}
 	// The link to the accumulator depends on acc, and the parent hash of the first event comes
 	// from outside the list: both are checked on every call. Only the internal consistency of
@@ -605,9 +610,12 @@ func (hash *Hash) UnmarshalJSON(b []byte) error {
 	if err != nil {
 		return err
 	}
-	_, mh, err := multihash.MHFromBytes(b)
+	n, mh, err := multihash.MHFromBytes(b)
 	if err != nil {
 		return err
+	}
+	if n != len(b) {
+		return errors.New("trailing bytes after hash")
 	}
 	*hash = Hash(mh)
 	return nil
